@@ -291,6 +291,20 @@ impl Oracle {
         // ---- C13, transaction clause: the requests of the metadata run once, in order, only in a finalisation
         // that ends without error; the same responses go to the user and into the Finished PDU
         if !self.cfg.reqs.is_empty() {
+            // within ONE operation: a fault handler that ends the transaction reports Finished (without responses);
+            // a Finished indication WITH responses after it means the requests ran in a transaction that had
+            // already been cancelled (fixed defect 860603f: unacknowledged EOF whose size is below the data held)
+            let mut ended_in_this_op = false;
+            for i in &o.inds {
+                if let Indication::Finished(f) = i {
+                    if ended_in_this_op && !f.filestore_responses.is_empty() {
+                        self.fail(orc, "C13", k, format!("filestore requests executed after a fault had already ended the transaction in the same operation (condition {:?})", f.report.condition));
+                    }
+                    if f.report.condition != Condition::NoError {
+                        ended_in_this_op = true;
+                    }
+                }
+            }
             for i in &o.inds {
                 if let Indication::Finished(f) = i {
                     if f.filestore_responses.is_empty() {
